@@ -74,6 +74,7 @@ def sl12(F, R):
         detail = {"enqueued": show(x, b), "guards": [show(f, b) for f in e.facts if "Level" not in repr(f)]}
         g = None
         D = None
+        tested_by_insert = False
         for f in e.facts:
             if f[0] == "bool" and f[2] is False:
                 ce = strip_load(f[1])
@@ -81,6 +82,14 @@ def sl12(F, R):
                         strip_sites(strip_load(ce[2][1])) == strip_sites(strip_load(x)):
                     g = f
                     D = set_id(ce[2][0])
+            if f[0] == "bool" and f[2] is True:
+                # `if visited.insert(x)` : test and mark in one step
+                ce = strip_load(f[1])
+                if ce[0] == "call" and ce[1].split("::")[-1] == "insert" and is_hash_container(b, ce[2][0]) and set_id(ce[2][0]) != W and \
+                        strip_sites(strip_load(ce[2][1])) == strip_sites(strip_load(x)):
+                    g = f
+                    D = set_id(ce[2][0])
+                    tested_by_insert = True
         if g is None:
             R.bad("SL1", "SL1/Sodg::slice_some/enqueue-not-guarded-by-visited", e.where(),
                   "a vertex is put on the work list without testing that it has not been visited: slice() does not terminate on a "
@@ -91,6 +100,7 @@ def sl12(F, R):
         on_dequeue = any(strip_load(m.args[1])[0] == "item" and mentions(m.args[1], lambda y: y[0] == "iter" and y[2] in ("drain",) or
                                                                          (y[0] == "call" and y[1].split("::")[-1] in ("pop", "pop_front")))
                          and not [f for f in m.facts if not is_iter_next_fact(f) and not is_isempty_fact(f) and "Level" not in repr(f)] for m in marks)
+        on_enqueue = on_enqueue or tested_by_insert
         if not (on_enqueue or on_dequeue):
             R.bad("SL1", "SL1/Sodg::slice_some/visited-never-marked", e.where(),
                   "vertices are never recorded as visited (neither when enqueued nor when dequeued): the closure loop revisits a cycle forever", detail)
@@ -129,6 +139,24 @@ def sl12(F, R):
                   {"call": show(pf, b)})
         else:
             R.ok("SL2", e.where(), "enqueue only under p(from, to, label) of exactly the scanned edge", {"call": show(pf, b)})
+    # a vertex other than the one being processed is recorded as visited only once the predicate accepted the edge to it:
+    # otherwise a vertex first met through a rejected edge is never reconsidered
+    for m in calls:
+        if m.name != "insert" or not m.args or not is_hash_container(b, m.args[0]) or set_id(m.args[0]) == W:
+            continue
+        xs = strip_load(m.args[1])
+        if not (xs[0] == "field" and xs[2] == "(tuple)::1" and strip_load(xs[1])[0] == "item" and
+                iter_source(strip_load(xs[1])[1]) is not None and strip_load(iter_source(strip_load(xs[1])[1]))[0] == "field" and
+                strip_load(iter_source(strip_load(xs[1])[1]))[2] == "Vertex::edges"):
+            continue
+        accepted = any(f[0] == "bool" and f[2] is True and strip_load(f[1])[0] == "call" and
+                       strip_load(f[1])[1].split("::")[-1] in ("call", "call_mut", "call_once") and strip_load(strip_load(f[1])[2][0]) == ("param", 3)
+                       for f in m.facts)
+        if not accepted:
+            R.bad("SL2", "SL2/Sodg::slice_some/visited-marked-before-predicate", m.where(),
+                  "an edge's target is recorded as visited before the predicate has accepted that edge: a vertex first reached through a "
+                  "rejected edge is never considered again, although another accepted edge leads to it",
+                  {"guards": [show(f, b) for f in m.facts if "Level" not in repr(f)]})
     # the loop runs until the work list is empty
     empt = [e for e in calls if e.name in ("is_empty", "len") and e.args and set_id(e.args[0]) == W]
     if not empt and not any(strip_load(d.args[0]) for d in drains):
